@@ -25,6 +25,9 @@ SAN = ["-fsanitize=address,undefined", "-fno-sanitize-recover=all", "-fno-omit-f
 ENV = {"ASAN_OPTIONS": "detect_leaks=0:abort_on_error=0", "UBSAN_OPTIONS": "print_stacktrace=0"}
 FLAG, ESC = 0x7E, 0x7D
 ECHO = 128
+# AST-normalised hash of the modelled functions of sercomm.c when Model/Sercomm.lean was written; a different
+# hash is not an alarm, it multiplies the number of generated histories (the hand model may be stale)
+MODEL_SRC_HASH = "a3eee58f8de35e1d"
 NDLCI = 129
 IN_TREE = [4, 5, 9, 10]          # DLCIs with user handlers in the code base (128 = echo)
 VERB = {"host": "sc.run", "target": "sc.runt"}
@@ -35,9 +38,17 @@ def gen(run):
 
 
 def caps(run):
-    c = getattr(run, "consts", None) or gen_sercomm.generate(run)
-    return {"host": c["host"]["rx_msg_size"] + c["host"]["alloc_slack"],
-            "target": c["target"]["rx_msg_size"] + c["host"]["alloc_slack"]}
+    """payload octets the receive buffer holds, per flavour (from the translator; if the translator could not
+    run the code, the sizes it did read, slack 0)"""
+    c = getattr(run, "consts", None)
+    if not c:
+        try:
+            c = gen_sercomm.generate(run)
+        except Exception:
+            c = getattr(run, "consts", None) or {"host": {}, "target": {}}
+    slack = max(0, c["host"].get("alloc_slack", 0))
+    return {"host": c["host"].get("rx_msg_size", 2048) + slack,
+            "target": c["target"].get("rx_msg_size", 256) + slack}
 
 
 def build_harness(run):
@@ -142,7 +153,7 @@ def noise(rng, n=None):
 class Link:
     """the abstract link of the property, used to place noise between frames and to say what must arrive:
     waiting messages; at a frame start the oldest one of the lowest DLCI; a frame occupies the line for
-    len(frame) octets.  `fragile`: the last frame that passed was over-long, so the next one may be lost."""
+    len(frame) octets.  `fragile`: the last frame that passed did not fit the buffer, so the next one may be lost."""
 
     def __init__(self, cap):
         self.cap = cap
@@ -169,9 +180,12 @@ class Link:
         self.wire_len += 1
         if self.cur[1] == 0:
             d, p = self.cur[0]
-            if len(p) >= self.cap:
-                kind = "never"
-                self.fragile = len(p) > self.cap or self.fragile
+            if len(p) > self.cap:
+                kind = "never"           # over-long: discarded
+                self.fragile = True
+            elif len(p) == self.cap:
+                kind = "may"             # fills the buffer exactly: neither promised nor forbidden
+                self.fragile = True
             else:
                 kind = "may" if self.fragile else "must"
                 self.fragile = False
@@ -304,9 +318,11 @@ def judge(link, ans):
     if len(a["pulled"]) != link.wire_len:
         return "pulled %d octets, the frames of the queued messages have %d" % (len(a["pulled"]), link.wire_len)
     if not match_deliveries(link.done, a["callbacks"]):
-        exp = [(d, len(p), k) for d, p, k in link.done]
-        got = [(d, len(p)) for d, p in a["callbacks"]]
-        return "deliveries differ: expected (dlci, len, must/may/never) %s, callbacks (dlci, len) %s" % (exp[:12], got[:12])
+        def show(p):
+            return hx(p) if len(p) <= 12 else "%s..(%d octets)" % (hx(p[:6]), len(p))
+        exp = ["%d:%s:%s" % (d, show(p), k) for d, p, k in link.done]
+        got = ["%d:%s" % (d, show(p)) for d, p in a["callbacks"]]
+        return "deliveries differ: the property requires (dlci:payload:must/may/never be delivered) %s, callbacks made %s" % (exp[:12], got[:12])
     return None
 
 
@@ -333,7 +349,7 @@ def corr_requests(run, flavour, cap, scale):
         return link
 
     # 1. in-property loopback histories, many DLCIs
-    for k in range(scale(60, 600) if flavour == "target" else scale(14, 120)):
+    for k in range(scale(200, 1500) if flavour == "target" else scale(40, 200)):
         pool = rng.sample([d for d in range(1, 128) if d not in (0x7D, 0x7E)], rng.choice([1, 2, 3, 6])) + \
             rng.sample(IN_TREE, rng.choice([1, 2, 4]))
         ops, link = gen_loopback(rng, cap, pool, rng.choice([1, 2, 3, 5, 9]), allow_over=(k % 3 == 0))
@@ -353,7 +369,7 @@ def corr_requests(run, flavour, cap, scale):
             add([4, 9], [("rx", frame(4, p) + frame(9, [0x7D]) + frame(4, [0]))], "length-boundary")
     # 4. receiver alone: frames, noise, over-long frames anywhere, garbage with flags, truncated frames,
     #    escape before flag, empty frames, unregistered / out-of-table addresses
-    for k in range(scale(80, 800) if flavour == "target" else scale(16, 160)):
+    for k in range(scale(250, 2000) if flavour == "target" else scale(40, 250)):
         regs = sorted(set(rng.sample(range(0, 140), 3) + rng.sample(IN_TREE, 2)))
         stream = []
         for _ in range(rng.choice([1, 2, 4, 8])):
@@ -381,7 +397,7 @@ def corr_requests(run, flavour, cap, scale):
         add(regs, ops or [("rx", [])], "rx-stream")
     # 5. outside the property: transmitter-only pulls mixed with loops (octets lost on the wire), late and
     #    repeated registrations, echo DLCI, queue index beyond the array
-    for k in range(scale(30, 300) if flavour == "target" else scale(8, 60)):
+    for k in range(scale(100, 800) if flavour == "target" else scale(20, 100)):
         regs = rng.sample(range(0, 129), 3)
         ops = []
         for _ in range(rng.randrange(2, 14)):
@@ -414,8 +430,12 @@ def correspond(run, corr):
     run.drift["sercomm.c"] = vf.src_hash_c(src, ["sercomm_sendmsg", "sercomm_drv_pull", "sercomm_register_rx_cb",
                                                  "dispatch_rx_msg", "sercomm_drv_rx_char", "sercomm_init"])
     samples = []
+    drifted = run.drift["sercomm.c"] != MODEL_SRC_HASH
+    if drifted:
+        corr.notes.append("source of the modelled functions changed since the model was written: 4x histories")
+    scale = (lambda q, t: run.scale(q, t) * 4) if drifted else run.scale
     for flavour in ("target", "host"):
-        rq = corr_requests(run, flavour, cp[flavour], run.scale)
+        rq = corr_requests(run, flavour, cp[flavour], scale)
         lines = [r[0] for r in rq]
         impl = run_impl(run, flavour, lines)
         model = vf.run_driver(lines)
@@ -504,7 +524,10 @@ def f17_cases(run, flavour, cap):
 
 def witness_of(case, line, ans, why):
     w = {"kind": case["kind"], "flavour": case["flavour"], "line": line, "impl": ans[:4000], "why": why,
-         "expected": [(d, hx(p)[:80], k) for d, p, k in case["link"].done][:40]}
+         "expected": [(d, hx(p)[:80], k) for d, p, k in case["link"].done][:40],
+         "history": {"regs": list(case["regs"]), "cap": case["link"].cap,
+                     "ops": [[op[0], op[1]] + ([list(op[2])] if op[0] == "send" else []) if op[0] != "rx" else ["rx", list(op[1])]
+                             for op in case["ops"]]}}
     if "dlci" in case:
         w["dlci"] = case["dlci"]
     if case["kind"] == "noise-after-overlong":
@@ -528,44 +551,62 @@ def witness_of(case, line, ans, why):
 
 
 def shrink(run, case, cap):
-    """drop sends (with their share of loops re-generated by a final drain) while the history still fails"""
+    """greedy reduction of a failing in-property history: drop sends / noise / loops, halve or empty payloads; after
+    every change the history is re-drained and must still be in-property (noise only between frames) and still fail"""
     if case["kind"] != "loopback":
         return case
-    ops = [op for op in case["ops"]]
-    budget = 60
+    ops = list(case["ops"])
+    budget = 120
+
+    def candidates(ops):
+        for i, op in enumerate(ops):
+            yield ops[:i] + ops[i + 1:]
+        for i, op in enumerate(ops):
+            if op[0] == "send" and len(op[2]) > 0:
+                p = op[2]
+                for q in ([], p[:len(p) // 2], p[len(p) // 2:], p[:-1], p[1:]):
+                    if len(q) < len(p):
+                        yield ops[:i] + [("send", op[1], q)] + ops[i + 1:]
+
+    def rebuild(cand):
+        link = Link(cap)
+        out = []
+        for op in cand:
+            if op[0] == "send":
+                link.send(op[1], op[2])
+            elif op[0] == "loop":
+                link.loop(op[1])
+            elif op[0] == "rx" and (link.cur is not None or link.fragile):
+                return None, None
+            out.append(op)
+        if link.due():
+            out.append(("loop", link.due() + 2))
+            link.loop(link.due() + 2)
+        return out, link
+
     improved = True
     while improved and budget > 0:
         improved = False
-        for i in range(len(ops)):
-            if ops[i][0] not in ("send", "rx"):
-                continue
-            cand = ops[:i] + ops[i + 1:]
-            link = Link(cap)
-            ok = True
-            for op in cand:
-                if op[0] == "send":
-                    link.send(op[1], op[2])
-                elif op[0] == "loop":
-                    link.loop(op[1])
-                elif op[0] == "rx" and (link.cur is not None or link.fragile):
-                    ok = False
-            if not ok:
-                continue
-            tail = []
-            if link.due():
-                tail = [("loop", link.due() + 2)]
-                link.loop(link.due() + 2)
-            c2 = dict(case, ops=cand + tail, link=link)
-            line = line_of(case["flavour"], case["regs"], c2["ops"])
-            budget -= 1
-            ans = run_impl(run, case["flavour"], [line])[0]
-            if judge(link, ans):
-                ops = cand + tail
-                case = c2
-                improved = True
-                break
+        for cand in candidates(ops):
             if budget <= 0:
                 break
+            out, link = rebuild(cand)
+            if out is None or out == ops:
+                continue
+            budget -= 1
+            line = line_of(case["flavour"], case["regs"], out)
+            ans = run_impl(run, case["flavour"], [line])[0]
+            if judge(link, ans):
+                ops = out
+                case = dict(case, ops=out, link=link)
+                improved = True
+                break
+    used = sorted({op[1] for op in case["ops"] if op[0] == "send"})
+    if used and used != case["regs"]:
+        c2 = dict(case, regs=used)
+        ans = run_impl(run, case["flavour"], [line_of(case["flavour"], used, case["ops"])])[0]
+        if judge(case["link"], ans):
+            case = c2
     return case
 
 
@@ -589,7 +630,7 @@ def search(run, corr, deep):
             found += bool(run.report_witness(witness_of(c, line, ans, judge(c["link"], ans) or why)))
     for flavour in ("target", "host"):
         cap = cp[flavour]
-        n = run.scale(120, 1500) if flavour == "target" else run.scale(24, 300)
+        n = run.scale(400, 3000) if flavour == "target" else run.scale(60, 400)
         if deep:
             n *= 6
         cases = oracle_cases(run, flavour, cap, n) + f10_cases(run, flavour, cap) + f17_cases(run, flavour, cap)
@@ -605,11 +646,15 @@ def search(run, corr, deep):
         answers = run_impl(run, flavour, lines)
         total += len(lines)
         reported = set()
+        per_kind = {}
         for c, line, ans in zip(cases, lines, answers):
             why = judge(c["link"], ans)
             if not why:
                 continue
-            key = (c["kind"], c.get("dlci"))
+            crashed = parse_answer(ans)["crash"]
+            key = ("crash",) if crashed else (c["kind"], c.get("dlci"), tuple(c.get("noise", ())))
+            if key in reported:
+                continue
             if c["kind"] == "loopback":
                 if key in reported:
                     continue
@@ -618,12 +663,18 @@ def search(run, corr, deep):
                 ans = run_impl(run, flavour, [line])[0]
                 why = judge(c["link"], ans) or why
             reported.add(key)
-            found += bool(run.report_witness(witness_of(c, line, ans, why)))
+            w = witness_of(c, line, ans, why)
+            if run.known_match(w) is None:
+                per_kind[w["kind"]] = per_kind.get(w["kind"], 0) + 1
+                if per_kind[w["kind"]] > 3:
+                    continue
+            found += bool(run.report_witness(w))
     corr.distribution["oracle: histories judged on the real code"] = total
     return found
 
 
 def replay(run, path):
+    """re-run the recorded history on the real code and judge it again with the property oracle"""
     rp = json.load(open(path))
     bad = 0
     for v in rp.get("violations", []):
@@ -631,14 +682,26 @@ def replay(run, path):
         if not w:
             print("replay: no concrete input recorded (%s)" % json.dumps(v.get("broken"))[:600])
             continue
-        ans = run_impl(run, w["flavour"], [w["line"]])[0]
-        print("replay %s (%s): %s" % (w["kind"], w["flavour"], w["why"]))
-        print("  request : %s" % w["line"][:600])
+        h = w["history"]
+        link = Link(h["cap"])
+        ops = []
+        for op in h["ops"]:
+            if op[0] == "send":
+                link.send(op[1], op[2])
+                ops.append(("send", op[1], op[2]))
+            elif op[0] == "loop":
+                link.loop(op[1])
+                ops.append(("loop", op[1]))
+            else:
+                ops.append((op[0], op[1]))
+        line = line_of(w["flavour"], h["regs"], ops)
+        ans = run_impl(run, w["flavour"], [line])[0]
+        why = judge(link, ans)
+        print("replay %s (%s)" % (w["kind"], w["flavour"]))
+        print("  request : %s" % line[:600])
         print("  impl now: %s" % ans[:600])
-        print("  expected: %s" % json.dumps(w["expected"])[:600])
-        same = ans[:4000] == w["impl"]
-        print("  same answer as recorded: %s" % same)
-        bad += same
+        print("  property: %s" % (why or "holds on this history"))
+        bad += bool(why)
     if bad:
         print("VIOLATION property=C06 replay=%s" % path)
     return 1 if bad else 0
